@@ -734,6 +734,14 @@ func describeGen(p *Prog, s *Seg, v ssa.Value) string {
 	}
 	k := ctorKind(p, StaticCallee(&c.Call))
 	if k == "" {
+		// a decorator (exclusion filter, live loop, ARP resolver) does not change the mode: look through it
+		if f := StaticCallee(&c.Call); f != nil && f.Signature.Results().Len() == 1 && types.TypeString(f.Signature.Results().At(0).Type(), nil) == reqGenT {
+			for _, a := range c.Call.Args {
+				if types.TypeString(a.Type(), nil) == reqGenT {
+					return describeGen(p, s, a)
+				}
+			}
+		}
 		return "?"
 	}
 	if k == "cross" || k == "addrreq" {
@@ -799,10 +807,13 @@ func checkGeneratorModes(p *Prog, r *Report) {
 			types.TypeString(fn.Signature.Results().At(0).Type(), nil) != reqGenT || fn.Signature.Params().Len() != 0 {
 			continue
 		}
+		if !recvHasField(fn, "portRanges") {
+			continue // port-less option family: checkPortlessModes
+		}
 		// builders that choose between modes: mention the ip-file option
 		name := FuncName(fn)
 		pos := p.Pos(fn.Pos())
-		fp := Paths(fn)
+		fp := PathsInl(fn)
 		modes := map[string]string{}
 		bad := ""
 		for _, s := range fp.Segs {
@@ -863,6 +874,7 @@ func checkGeneratorModes(p *Prog, r *Report) {
 			r.Check(modes[k] == oracle[k] && bad == "", "C01.R3", name+"/"+k, pos, "target mode ("+k+") builds "+oracle[k], fmt.Sprintf("builds %q %s", modes[k], bad))
 		}
 	}
+	n += checkPortlessModes(p, r)
 	r.Count("mode_builders", n)
 	if n < 2 {
 		r.Viol("C01.R3", "mode builders", "-", "both option families (packet and generic scans) have a generator-mode builder", fmt.Sprintf("found %d", n))
@@ -1179,7 +1191,27 @@ func checkIteratorEmission(p *Prog, r *Report) {
 		fn := call.Parent()
 		name := FuncName(fn)
 		pos := p.Pos(call.Pos())
-		size := sx(call.Call.Args[0], 0)
+		// the size may be computed by a small helper: evaluate it on a path through the call with helpers expanded
+		var ps *Seg
+		for _, sg := range PathsInl(fn).Segs {
+			if sg.Has(call) {
+				ps = sg
+				break
+			}
+		}
+		R := func(v ssa.Value) ssa.Value {
+			if ps != nil {
+				return ps.Resolve(v)
+			}
+			return v
+		}
+		SX := func(v ssa.Value) string {
+			if ps != nil {
+				return sxSeg(ps, v, 0)
+			}
+			return sx(v, 0)
+		}
+		size := SX(call.Call.Args[0])
 		// size expression
 		kind := ""
 		switch {
@@ -1199,14 +1231,14 @@ func checkIteratorEmission(p *Prog, r *Report) {
 		case strings.Contains(size, "Size("):
 			kind = "addresses"
 			ok := false
-			if sh, isB := stripConvAll(call.Call.Args[0]).(*ssa.BinOp); isB && sh.Op == token.SHL && bits32(sh.Type()) {
+			if sh, isB := stripConvAll(R(stripConvAll(call.Call.Args[0]))).(*ssa.BinOp); isB && sh.Op == token.SHL && bits32(sh.Type()) {
 				if one, isC := constInt(sh.X); isC && one == 1 {
 					if bt, _, okb := typeBits(sh.Type()); okb && bt >= 64 {
-						if sub, isS := stripConvAll(sh.Y).(*ssa.BinOp); isS && sub.Op == token.SUB {
-							ex1, o1 := sub.X.(*ssa.Extract)
-							ex0, o0 := sub.Y.(*ssa.Extract)
+						if sub, isS := stripConvAll(R(stripConvAll(sh.Y))).(*ssa.BinOp); isS && sub.Op == token.SUB {
+							ex1, o1 := R(sub.X).(*ssa.Extract)
+							ex0, o0 := R(sub.Y).(*ssa.Extract)
 							if o1 && o0 && ex1.Tuple == ex0.Tuple && ex1.Index == 1 && ex0.Index == 0 {
-								if c, isC := ex1.Tuple.(*ssa.Call); isC && calleeFull(&c.Call) == "(net.IPMask).Size" && strings.HasSuffix(sx(c.Call.Args[0], 0), "DstSubnet.Mask") {
+								if c, isC := ex1.Tuple.(*ssa.Call); isC && calleeFull(&c.Call) == "(net.IPMask).Size" && strings.HasSuffix(SX(c.Call.Args[0]), "DstSubnet.Mask") {
 									ok = true
 								}
 							}
@@ -1749,4 +1781,73 @@ func checkPortSources(p *Prog, r *Report) {
 	if n < 2 {
 		r.Viol("C01.R9", "port option parsers", "-", "both option families store their port list in parseRawOptions", fmt.Sprint(n))
 	}
+}
+
+func recvHasField(fn *ssa.Function, field string) bool {
+	if fn.Signature.Recv() == nil {
+		return false
+	}
+	o, _, _ := types.LookupFieldOrMethod(fn.Signature.Recv().Type(), true, fn.Pkg.Pkg, field)
+	_, isVar := o.(*types.Var)
+	return isVar
+}
+
+// checkPortlessModes: the address-only option family (icmp) scans the subnet argument without a
+// target file and the file's addresses with one; the choice is made on the target-file option.
+func checkPortlessModes(p *Prog, r *Report) int {
+	const sink = modPath + "/pkg/scan.NewPacketSource"
+	n := 0
+	for _, fn := range p.SrcFuncs() {
+		if fn.Pkg != p.SPkg("command") || fn.Parent() != nil || !recvHasField(fn, "ipFile") || recvHasField(fn, "portRanges") {
+			continue
+		}
+		type site struct {
+			s *Seg
+			v ssa.Value
+		}
+		var sites []site
+		fp := PathsInl(fn)
+		if fn.Signature.Params().Len() == 0 && fn.Signature.Results().Len() == 1 && types.TypeString(fn.Signature.Results().At(0).Type(), nil) == reqGenT {
+			for _, s := range fp.Segs {
+				if s.Returns() {
+					sites = append(sites, site{s, s.Exit.(*ssa.Return).Results[0]})
+				}
+			}
+		} else {
+			for _, c := range callInstrs(fn, sink) {
+				for _, s := range fp.Segs {
+					if s.Has(c) {
+						sites = append(sites, site{s, c.Call.Args[0]})
+					}
+				}
+			}
+		}
+		if len(sites) == 0 {
+			continue
+		}
+		n++
+		modes := map[string]string{}
+		bad := ""
+		for _, st := range sites {
+			fk, fe := emptinessFact(st.s, "ipFile")
+			if !fk {
+				bad = "a path chooses the generator without consulting the target-file option"
+				continue
+			}
+			key := "file"
+			if fe {
+				key = "no-file"
+			}
+			desc := describeGen(p, st.s, st.v)
+			if old, had := modes[key]; had && old != desc {
+				bad = "mode " + key + " builds both " + old + " and " + desc
+			}
+			modes[key] = desc
+		}
+		oracle := map[string]string{"no-file": "addrreq(subnet)", "file": "addrreq(addrfile)"}
+		for _, k := range []string{"file", "no-file"} {
+			r.Check(modes[k] == oracle[k] && bad == "", "C01.R3", FuncName(fn)+"/"+k, p.Pos(fn.Pos()), "address-only target mode ("+k+") builds "+oracle[k], fmt.Sprintf("builds %q %s", modes[k], bad))
+		}
+	}
+	return n
 }
